@@ -312,6 +312,23 @@ def pred_optional_word_prefix_drop(v, params):
 core.PREDICATES["c04_optional_word_prefix_drop"] = pred_optional_word_prefix_drop
 
 
+def pred_unparsed_table_cell(v, params):
+    """Known finding C04-unparsed-table-cell: the canonical MathML of the witness has a table cell that was left unparsed (adjacent
+    operands), so rules that look at the structure (no-say-parens speaks only the 'single' content of the parentheses) drop content"""
+    import xml.etree.ElementTree as ET
+    from . import canon
+    w = v["witness"]
+    sess = Session(w["cfg"])
+    try:
+        r = sess.ensure().call("set_mathml", w["mathml"])
+        return r["r"] == "ok" and canon.has_unparsed_table_cell(ET.fromstring(r["v"]))
+    finally:
+        sess.close()
+
+
+core.PREDICATES["c04_unparsed_table_cell"] = pred_unparsed_table_cell
+
+
 def replay(witness):
     from xml.etree import ElementTree as ET
     cfg = witness["cfg"]
